@@ -267,6 +267,26 @@ func Resolve variant any standalone returns (out, err)
     invariant @no-bad-yet badok ==> (forall j int :: {#ord[j]} 0 <= j && j < #it ==> !Bad(#ord[j]))
   }
 
+// ---------------------------------------------------------------------------------------------
+// C11, exactness: "fails exactly when some chain of ingredient references starting at a recipe is N or
+// more references long". ChainLen(k) is the number of references on the longest chain from k (0 for a
+// name the book does not define). This clause does NOT hold on the current code: an ingredient that has
+// already been resolved looks like a recipe of height 1, so whether a chain of length N..2N-1 is rejected
+// depends on the order in which the map is visited (known finding F-11, /verif/known_findings.txt).
+// ---------------------------------------------------------------------------------------------
+fun ChainLen(k string) int
+pred ChainDef() := (forall k string :: {ChainLen(k)} ChainLen(k) >= 0 && (!(k in B0dom) ==> ChainLen(k) == 0))
+  && (forall k string, i int :: {B0[k][i]} k in B0dom && 0 <= i && i < B0len[k] ==> ChainLen(k) >= 1 + ChainLen(B0[k][i].Name))
+
+func Resolve variant exact standalone returns (out, err)
+  props C11
+  requires @acyclic-book Acyclic() && WfDBI(db) && Snapshot(db) && ChainDef()
+  requires @long-chain exists k string :: k in db && ChainLen(k) >= c.MaxDepth
+  modifies heap(DBNode)
+  calluse resolveNode#1 any
+  loop 1 { invariant @wf WfDBI(db) && db == old(db) && c == old(c) }
+  ensures @exact [C11] err != nil
+
 // the same for the deprecated struct API
 func (Resolver).resolveNode variant any standalone returns (err)
   props C11 C08
